@@ -109,6 +109,9 @@ class InMemorySemantivaTransport(SemantivaTransport):
         self._queues: Dict[str, tuple[deque, threading.Lock]] = defaultdict(
             lambda: (deque(), threading.Lock())
         )
+        # Serialises first use of a channel: the default factory runs Python code, so
+        # two first publishers could otherwise each create (and one of them lose) a queue.
+        self._queues_lock = threading.Lock()
         self._connected = False
 
     def connect(self) -> None:
@@ -148,7 +151,8 @@ class InMemorySemantivaTransport(SemantivaTransport):
         Returns:
             Future if require_ack=True, else None.
         """
-        q, lock = self._queues[channel]
+        with self._queues_lock:
+            q, lock = self._queues[channel]
         msg = Message(
             data=data,
             context=context,
